@@ -321,8 +321,11 @@ class Paraxial:
                 raise ValueError('Field type cannot be "object_height" for an '
                                  'object at infinity.')
 
-            y = -np.tan(np.radians(field_y)) * EPL
-            z = self.optic.surface_group.positions[1]
+            # start one unit in front of the first surface and of the
+            # entrance pupil, so that the launch slope (y1 - y0) / (EPL - z0)
+            # is defined also when the pupil lies on the first surface
+            z = min(float(self.optic.surface_group.positions[1][0]), EPL) - 1
+            y = -np.tan(np.radians(field_y)) * (EPL - z)
 
             y0 = y1 + y
             z0 = np.ones_like(y1) * z
